@@ -1,11 +1,14 @@
 """C02 — fit/predict never alter hyper-parameters or caller data, even when fit fails."""
 import sys
+import contextlib
+import io
 
 from core import Corr, Violation, run_driver
 from extract import lifecycle_gen as lg
 from extract import skeleton as sk
 from extract import diag
 from props import _menu
+from props import _guided
 
 ID = "C02"
 LEAN_TARGETS = ["MlVerif.Gen.C02", "MlVerif.Model.Flow", "MlVerif.Model.Lifecycle", "MlVerif.Lemmas.Flow",
@@ -371,6 +374,58 @@ def run_scenario(e, scenario, variant, seed, ctx_rng_seed):
     return bad, executed
 
 
+#: user opt-ins documented as letting the estimator work on the caller's arrays: outside the property (ASSUMPTIONS)
+OPT_OUT_PARAMS = ("copy_x", "copy_X", "copy")
+
+
+def run_guided(e, override, variant, seed, ctx_rng_seed):
+    """The menu entry with some hyper-parameters replaced by values the CURRENT SOURCE compares them with
+    (`_guided`).  Such a configuration may be one `fit` or an observer legitimately refuses: whatever a call does -
+    return or raise - it must leave get_params and the caller's data as they were, and a successful fit returns self."""
+    import random
+    import numpy
+    import warnings
+    warnings.filterwarnings("ignore")
+    rng = random.Random(ctx_rng_seed)
+    X, y, w = _menu.make_data(e.data, rng, variant)
+    inner = _menu.failing(_menu.inner_base(e.inner_kind), _menu.Counter(None)) if e.inner_kind else None
+    est = _guided.apply(e, override, inner)
+    if est is None:
+        return [], False
+    bad = []
+    names = ("X", "y", "sample_weight")
+
+    def guarded(label, thunk, data):
+        p0 = _menu.params_snapshot(est)
+        b0 = _menu.buffers(*data)
+        try:
+            r, err = thunk(), None
+        except Exception as ex:  # noqa: BLE001
+            r, err = None, ex
+        p1 = _menu.params_snapshot(est)
+        b1 = _menu.buffers(*data)
+        ch = diff_params(p0, p1)
+        if ch:
+            bad.append(("%s.%s:hyperparam-changed%s:%s" % (e.cls, label, "-on-failure" if err else "", ",".join(ch)),
+                        "%s changes what get_params reports%s" % (label, " when it raises %s" % type(err).__name__ if err else ""),
+                        {k: [dict(strip_ids(p0)).get(k), dict(strip_ids(p1)).get(k)] for k in ch if k != "<structure>"},
+                        "get_params() identical before and after the call"))
+        for n, x0, x1 in zip(names, b0, b1):
+            if x0 != x1:
+                bad.append(("%s.%s:caller-data-written:%s" % (e.cls, label, n),
+                            "%s writes into the caller's %s" % (label, n), "buffer changed", "bytes unchanged"))
+        return r, err
+
+    numpy.random.seed(seed)
+    r, err = guarded("fit", lambda: _menu.call_fit(est, X, y, w), (X, y, w))
+    if err is None and r is not est:
+        bad.append(("%s.fit:does-not-return-self" % e.cls, "fit does not return the estimator itself", repr(r)[:80], "self"))
+    if err is None:
+        for ob in e.observers:
+            guarded(observer_method(ob), lambda ob=ob: _menu.call_observer(est, ob, X, y), (X, y, w))
+    return bad, True
+
+
 def count_inner_fits(e, variant, seed):
     import random
     import numpy
@@ -401,10 +456,13 @@ def search(ctx, hints):
     ctx.shadow(need_cython=True)
     menu = _menu.build_menu()
     vs, evals, nontriv, samples = {}, 0, set(), []
+    # classes with a skeleton the analyses reject get the deep exploration whatever the tier
+    expl = explain(ctx)
+    rejected = {x["class"] for x in expl if isinstance(x, dict)}
     for e in menu:
-        if e.slow and not ctx.thorough:
+        if e.slow and not ctx.thorough and e.cls not in rejected:
             continue
-        for variant in range(ctx.pick(1, 3)):
+        for variant in range(3 if e.cls in rejected else ctx.pick(1, 3)):
             dseed = ctx.rng.randrange(1 << 30)
             for sc in scenarios_for(e, ctx, variant, dseed):
                 seed = ctx.rng.randrange(1 << 30)
@@ -419,8 +477,28 @@ def search(ctx, hints):
                     if key not in vs:
                         vs[key] = Violation(key, what, {"entry": e.name, "scenario": list(sc), "variant": variant,
                                                         "seed": seed, "dseed": dseed}, obs, req)
+    # configurations read from the current source (values each hyper-parameter is compared with), one and two at a time
+    guided = 0
+    for e in menu:
+        if e.slow and not ctx.thorough and e.cls not in rejected:
+            continue
+        ovs = [o for o in _guided.overrides(ctx.repo, e.cls, pairs=True, cap=60 if e.cls in rejected else ctx.pick(12, 60))
+               if not any(k in OPT_OUT_PARAMS for k in o)]
+        for ov in ovs:
+            seed, dseed = ctx.rng.randrange(1 << 30), ctx.rng.randrange(1 << 30)
+            with contextlib.redirect_stdout(io.StringIO()), contextlib.redirect_stderr(io.StringIO()):
+                bad, executed = run_guided(e, ov, 0, seed, dseed)     # (verbose=True is one of the values)
+            evals += 1
+            if executed:
+                guided += 1
+                nontriv.add((e.name, "guided", tuple(sorted(ov.items(), key=str))))
+            for key, what, obs, req in bad:
+                if key not in vs:
+                    vs[key] = Violation(key, what, {"entry": e.name, "scenario": ["guided", None], "override": ov,
+                                                    "variant": 0, "seed": seed, "dseed": dseed}, obs, req)
     return list(vs.values()), {"evaluations": evals, "distinct_nontrivial": len(nontriv), "samples": samples,
-                               "explanations_of_rejected_skeletons": explain(ctx)}
+                               "source_driven_configurations": guided,
+                               "explanations_of_rejected_skeletons": expl}
 
 
 def explain(ctx):
@@ -446,6 +524,9 @@ def replay(ctx, item):
     inp = item["input"]
     menu = {e.name: e for e in _menu.build_menu()}
     e = menu[inp["entry"]]
-    bad, _ = run_scenario(e, tuple(inp["scenario"]), inp["variant"], inp["seed"], inp["dseed"])
+    if inp["scenario"][0] == "guided":
+        bad, _ = run_guided(e, inp["override"], inp["variant"], inp["seed"], inp["dseed"])
+    else:
+        bad, _ = run_scenario(e, tuple(inp["scenario"]), inp["variant"], inp["seed"], inp["dseed"])
     return [Violation(k, w, inp, o, r) for k, w, o, r in bad if k == item["key"]] or \
            [Violation(k, w, inp, o, r) for k, w, o, r in bad]
